@@ -4,14 +4,14 @@
 # n<k>/NOTE-only silent; everything else must be reported (1). Overrides: selftest/mutants/EXPECT.txt ("<file> <exits> # why").
 P=$1
 ok=0; bad=0
-for m in /verif/selftest/mutants/$P/*; do
+for m in ${KC_VERIF:-/verif}/selftest/mutants/$P/*; do
   b=$(basename $m)
-  out=$(MUTLINES=2 /verif/tools/mutrun.sh "$m" $P 2>&1); rc=$?
+  out=$(MUTLINES=2 ${KC_VERIF:-/verif}/tools/mutrun.sh "$m" $P 2>&1); rc=$?
   want="1"
   if echo "$b" | grep -Eq '^(c[0-9]+-)?r[0-9]'; then want="0"; fi
   if echo "$b" | grep -Eq '^(c[0-9]+-)?u[0-9]|UNDECIDED'; then want="0 2"; fi
   if echo "$b" | grep -Eq '^(c[0-9]+-)?n[0-9]|NOTE-only'; then want="0"; fi
-  ov=$(grep -E "^$b " /verif/selftest/mutants/EXPECT.txt 2>/dev/null | head -1 | sed 's/#.*//' | cut -d' ' -f2-)
+  ov=$(grep -E "^$b " ${KC_VERIF:-/verif}/selftest/mutants/EXPECT.txt 2>/dev/null | head -1 | sed 's/#.*//' | cut -d' ' -f2-)
   [ -n "$ov" ] && want="$ov"
   if echo " $want " | grep -q " $rc "; then ok=$((ok+1)); st=ok; else bad=$((bad+1)); st=UNEXPECTED; fi
   rule=$(echo "$out" | grep -o 'rule=[^ ]*' | head -1)
